@@ -27,7 +27,7 @@ def plan(tier, seed):
 def required(tier):
     return {"partition-probs-sum-one": 30, "partitions-all-and-only": 30, "projection-row-stochastic": 40,
             "calling-error-row-stochastic": 40, "no-call-in-unit-interval": 40, "F-to-0-continuous": 10,
-            "corrected-not-more-sites": 5, "simulated-subsampling-unbiased": 4, "deep-coverage-equals-projection": 3, "enough-covered-in-unit-interval": 40}
+            "corrected-not-more-sites": 5, "repeated-evaluation-same-result": 10, "simulated-subsampling-unbiased": 4, "deep-coverage-equals-projection": 3, "enough-covered-in-unit-interval": 40}
 
 
 def covdist(rng, kind=None, maxd=None):
@@ -49,6 +49,11 @@ def covdist(rng, kind=None, maxd=None):
         p[55:] = rng.uniform(0.5, 1, maxd + 1 - 55)
     elif kind == "shallow":
         p[:min(5, maxd + 1)] = rng.uniform(0.2, 1, min(5, maxd + 1))
+    elif kind == "ultralow":
+        # almost every individual has no read or a single one: a called heterozygote is then nearly always miscalled
+        p[0] = float(rng.uniform(0.2, 0.7))
+        p[1] = (1 - p[0]) * float(rng.uniform(0.95, 0.999))
+        p[2] = 1 - p[0] - p[1]
     p = p / p.sum()
     return np.array([np.arange(len(p)), p]), kind
 
@@ -140,6 +145,9 @@ def run(spec, rec):
             n = int(rng.choice([2, 4, 6, 8, 10, 12, 14, 16, 20]))
             F = float(rng.choice([0, 0, 1e-6, 0.05, 0.5, 0.95]))
             cd, ck = covdist(rng)
+            if ci < 4:
+                n, F = [12, 16, 20, 14][ci], [0.0, 0.3, 0.0, 0.05][ci]
+                cd, ck = covdist(rng, "ultralow", maxd=int(rng.integers(3, 8)))
             if not rec.case("mat-%d" % ci, {"n": n, "F": F, "cov": ck, "maxd": int(cd.shape[1] - 1)},
                             nontrivial=(n >= 4 and (cd[1][0] > 0 or cd[1][1] > 0))):
                 continue
@@ -155,6 +163,8 @@ def run(spec, rec):
                     mean = P @ np.arange(m + 1) / m
                     rec.close("projection-mean-frequency", float(np.max(np.abs(mean - np.arange(n + 1) / n))), 1e-9, site="LowPass.projection_matrix", tags=dict(tags, m=m))
             m = nsubs[int(rng.integers(len(nsubs)))]
+            if ck == "ultralow":
+                m = n
             ok, E = rec.noraise("calling_error_matrix-returns", lambda: LP.calling_error_matrix(cd, m, F), site="LowPass.calling_error_matrix", tags=tags)
             if ok:
                 E = np.asarray(E, float)
@@ -256,3 +266,11 @@ def run(spec, rec):
                 if not np.asarray(np.ma.getmaskarray(m)).any():
                     rec.close("deep-coverage-corners", relerr(md, plain0), 1e-9, site=site, tags=tags)
                     rec.close("sites-only-redistributed", abs(float(md.sum()) - float(vis.sum())) / float(vis.sum()), 1e-9, site=site, tags=tags)
+            # the wrapper is a function of its arguments: evaluated again (after an evaluation at other parameter values), it returns
+            # what it returned the first time -- the calling distributions it precomputed are not consumed by use
+            par2 = [float(v) * 1.3 for v in params]
+            ok2, _ = rec.noraise("lowpass-returns", lambda: lf(par2, nsub, pts), site=site, tags=dict(tags, repeat="other-parameters"))
+            for rep in range(2):
+                ok3, m3 = rec.noraise("lowpass-returns", lambda: lf(params, nsub, pts), site=site, tags=dict(tags, repeat=rep + 2))
+                if ok3:
+                    rec.close("repeated-evaluation-same-result", relerr(np.asarray(m3.data, float)[mask], md[mask]), 1e-12, site=site, tags=dict(tags, repeat=rep + 2))
